@@ -25,7 +25,9 @@ def F(*names):
 reg("default", F("tlsh-default"), flags=[15, 16, 18, 19, 21])
 reg("strict", F("tlsh-default", "f-strict-parser"), flags=[1, 15, 16, 18, 19, 21])
 
-SETUP_CONFIGS = ["default"]
+reg("release", F("tlsh-default"), profile="release", flags=[3, 15, 16, 18, 19, 21])
+
+SETUP_CONFIGS = ["default", "release"]
 
 
 def flags(name):
